@@ -14,7 +14,7 @@ STDEV_INV = {
     "data-variance": ("implies(j >= s, isnum(Rd(c, j, f'{N}_data.variance')) and num(Rd(c, j, f'{N}_data.variance')) * period"
                       " == Sigma(Max(s, j - period + 1), j + 1, lambda t: num(Rd(c, t, X)) * num(Rd(c, t, X)))"
                       " - period * num(Rd(c, j, f'{N}_data.mean')) * num(Rd(c, j, f'{N}_data.mean')))", ["C05"],
-                      {"defer_in": ("index",)}),  # proved for the calculate step (with the lemma below); undecided inside the budget for the recompute step
+                      {"assume_below_only": True}),  # recompute step: the stale (pre-recompute) instance at i is not among the hypotheses
     "presence": ("iff(Rd(c, j, N) is not None, j >= w)", ["C05", "C09"]),
     "type": ("implies(j >= w, isfloat(Rd(c, j, N)))", ["C05", "C09"]),
     "rounded": ROUNDED,
